@@ -1757,7 +1757,7 @@ func (d *driver) closeSafeGateOnly() bool {
 func main() {
 	seed := flag.Int64("seed", 1, "PRNG seed")
 	n := flag.Int("n", 300, "number of generated cases")
-	only := flag.String("only", "", "gen|e2e|wire|soak|f5|joinerr")
+	only := flag.String("only", "", "gen|e2e|wire|conn|soak|f5|joinerr")
 	caseSeed := flag.String("caseseed", "", "with -only gen|e2e|soak: run just the scenario with this seed (hex, the seed= feature of a case)")
 	reps := flag.Int("reps", 1, "with -caseseed: how many times")
 	wd := flag.Duration("watchdog", watchdog, "watchdog per blocking wait")
@@ -1790,6 +1790,9 @@ func main() {
 	}
 	if *only == "" || *only == "wire" {
 		runWireF5()
+	}
+	if *only == "" || *only == "conn" {
+		runConnFamily()
 	}
 	for i := 0; i < *n; i++ {
 		switch {
